@@ -2,6 +2,6 @@
 (* bounded instances of Tokenizer.tla: cfg files bind V and Units to the toy   *)
 (* vocabularies of TokVocab.tla                                                *)
 EXTENDS Tokenizer, TokVocab
-VocabJson == PrintT(ToJson(V))
+VocabJson == PrintT(ToJson([vocab |-> V, units |-> Units]))
 ASSUME VocabJson
 ===============================================================================
